@@ -112,3 +112,107 @@ Theorem C12_header_iff : forall on_repr r e ps,
   header_ok (gen_header on_repr r e ps) r e ps <-> (on_repr = false \/ ps = []).
 Proof. exact Proofs.header_iff. Qed.
 Print Assumptions C12_header_iff.
+
+(* ================================================================== growth round *)
+
+(** `E::try_from(v as repr) == Ok(v)` for the variant at every position of the declaration *)
+Theorem C12_roundtrip : forall t vs tbl f i v d,
+  enum_accepted t vs tbl -> try_from splice_parenthesised t vs = Some f ->
+  nth_error tbl i = Some (v, d) -> fieldless v = true -> cast_at tbl i = Some d /\ f d = Ok v.
+Proof. exact (fun t vs tbl f i v d Ha => Proofs.roundtrip splice_parenthesised t vs tbl f i v d Ha (Proofs.splice_ok_paren splice_parenthesised vs eq_refl)). Qed.
+Print Assumptions C12_roundtrip.
+
+(** `try_from(n) == Ok(v)` only for a declared field-less v with `v as repr == n` *)
+Theorem C12_ok_is_cast : forall t vs tbl f n v,
+  enum_accepted t vs tbl -> try_from splice_parenthesised t vs = Some f -> f n = Ok v ->
+  fieldless v = true /\ exists i, nth_error tbl i = Some (v, n) /\ cast_at tbl i = Some n /\ nth_error vs i = Some v.
+Proof. exact (fun t vs tbl f n v Ha => Proofs.ok_is_cast splice_parenthesised t vs tbl f n v Ha (Proofs.splice_ok_paren splice_parenthesised vs eq_refl)). Qed.
+Print Assumptions C12_ok_is_cast.
+
+(** no hypothesis on the enum at all: a variant with fields is never returned *)
+Theorem C12_fielded_never_ok : forall paren t vs f n v,
+  try_from paren t vs = Some f -> f n = Ok v -> fieldless v = true.
+Proof. exact Proofs.fielded_never_ok. Qed.
+Print Assumptions C12_fielded_never_ok.
+
+(** an enum with no field-less variant (or no variant): the impl exists, compiles, and every input is Err(input) *)
+Theorem C12_no_fieldless_always_err : forall paren t vs,
+  (forall v, In v vs -> fieldless v = false) ->
+  exists f, try_from paren t vs = Some f /\ forall n, f n = Err n.
+Proof. exact Proofs.no_fieldless_always_err. Qed.
+Print Assumptions C12_no_fieldless_always_err.
+
+(* ---- wrap-around at the type limits, stated explicitly (the meaning of `as` and `<<` in Model.eval) *)
+
+Theorem C12_wrap_in_range : forall t z, in_range t (wrap t z) = true.
+Proof. exact Proofs.wrap_in_range. Qed.
+Print Assumptions C12_wrap_in_range.
+
+Theorem C12_wrap_congruent : forall t z, exists k, wrap t z = z + k * 2 ^ bits t.
+Proof. exact Proofs.wrap_congruent. Qed.
+Print Assumptions C12_wrap_congruent.
+
+Theorem C12_wrap_id : forall t z, in_range t z = true -> wrap t z = z.
+Proof. exact Proofs.wrap_id. Qed.
+Print Assumptions C12_wrap_id.
+
+Theorem C12_wrap_limits : forall t, wrap t (hi t + 1) = lo t /\ wrap t (lo t - 1) = hi t.
+Proof. exact Proofs.wrap_limits. Qed.
+Print Assumptions C12_wrap_limits.
+
+(** discriminants do NOT wrap: an implicit variant after MAX makes the enum unacceptable *)
+Theorem C12_no_implicit_wrap : forall t v vs, vdiscr v = None -> rust_table t (hi t + 1) (v :: vs) = None.
+Proof. exact Proofs.no_implicit_wrap. Qed.
+Print Assumptions C12_no_implicit_wrap.
+
+(* ---- arbitrary discriminant expressions: rustc's evaluation as an uninterpreted function *)
+
+(** [ev] is ANY evaluation of discriminant expressions at the repr type that gives `(e) + k`, `(e)`
+    and the literal 0 their Rust meaning ([evaluator_ok]); nothing is assumed about other operators,
+    constants, casts, or the width of usize.  What is left to the oracle: that rustc is such an [ev]. *)
+Theorem C12_inverse_any_evaluator : forall t ev, evaluator_ok t ev -> forall vs tbl f,
+  rust_table_g t ev 0 vs = Some tbl -> NoDup (map snd tbl) ->
+  try_from_g ev splice_parenthesised vs = Some f ->
+  forall n v, f n = Ok v <-> (fieldless v = true /\ In (v, n) tbl).
+Proof. exact Proofs.inverse_any_evaluator. Qed.
+Print Assumptions C12_inverse_any_evaluator.
+
+Theorem C12_err_any_evaluator : forall ev vs f n m,
+  try_from_g ev splice_parenthesised vs = Some f -> f n = Err m -> m = n.
+Proof. exact Proofs.err_any_evaluator. Qed.
+Print Assumptions C12_err_any_evaluator.
+
+Theorem C12_any_evaluator_instance : forall t,
+  evaluator_ok t (eval t) /\
+  (forall vs, rust_table_g t (eval t) 0 vs = rust_discrs t vs) /\
+  (forall paren vs, try_from_g (eval t) paren vs = try_from paren t vs).
+Proof. exact Proofs.any_evaluator_instance. Qed.
+Print Assumptions C12_any_evaluator_instance.
+
+(* ---- which items get an impl *)
+
+Theorem C12_impl_iff : forall k r tf,
+  expand_decision k r tf = DImpl <-> (k = KEnum /\ repr_of r <> None /\ tf = [TARepr]).
+Proof. exact Proofs.impl_iff. Qed.
+Print Assumptions C12_impl_iff.
+
+Theorem C12_no_impl_iff : forall k r tf,
+  expand_decision k r tf = DNoImpl <-> (k = KEnum /\ repr_of r <> None /\ tf = []).
+Proof. exact Proofs.no_impl_iff. Qed.
+Print Assumptions C12_no_impl_iff.
+
+(* ---- impl header with inline bounds, defaults and a where-clause *)
+
+(** every generic parameter reappears on the impl with its bounds and without its default, the
+    enum is applied to all of them, the repr type to none, the where-clause is carried over *)
+Theorem C12_header_full : forall r e ps w,
+  Proofs.header_full_ok (gen_header_full generics_on_repr r e ps w) r e ps w.
+Proof. exact (Proofs.header_full_on_enum generics_on_repr eq_refl). Qed.
+Print Assumptions C12_header_full.
+
+Theorem C12_header_full_forgets : forall on_repr r e ps w,
+  let h := gen_header_full on_repr r e ps w in
+  gen_header on_repr r e (map gp ps) =
+  {| h_impl_params := map fst (hf_params h); h_trait_arg := hf_trait_arg h; h_self := hf_self h |}.
+Proof. exact Proofs.header_full_forgets. Qed.
+Print Assumptions C12_header_full_forgets.
